@@ -3,7 +3,10 @@
 (* (projected by harness/pool.py or reconstructed from recorded traces) and         *)
 (* evaluates Pool's own property formulas on them.                                  *)
 EXTENDS Pool, IOUtils
-VARIABLES tid, l
+VARIABLES tid, l,
+          grs, graised, glen      \* ghost restart budget: what the specification's restart_state holds when it is
+                                  \* fed the *observed* exits and acceptances (not the implementation's own counters),
+                                  \* and what the last supervision pass should therefore have done
 Obs == JsonDeserialize(IOEnv.OBS_FILE)
 
 ToSet(s) == {s[i] : i \in 1..Len(s)}
@@ -19,6 +22,7 @@ Bind(o, a) ==
 
 MonInit == /\ tid \in 1..Len(Obs) /\ l = 1
            /\ Bind(Obs[tid][1].state, Obs[tid][1].act)
+           /\ grs = [R |-> 0, T |-> None] /\ graised = FALSE /\ glen = Len(Obs[tid][1].state.pool)
 
 MonNext == /\ l < Len(Obs[tid]) /\ l' = l + 1 /\ tid' = tid
            /\ LET o == Obs[tid][l + 1].state
@@ -28,4 +32,12 @@ MonNext == /\ l < Len(Obs[tid]) /\ l' = l + 1 /\ tid' = tid
                  /\ dirty' = ToSet(o.dirty) /\ inq' = o.inq /\ outq' = o.outq /\ w' = PadW(o.w)
                  /\ sigs' = o.sigs /\ now' = o.now /\ ndup' = 0 /\ supd' = FALSE /\ scand' = FALSE
                  /\ raised' = o.raised /\ scanning' = o.scanning /\ snap' = o.snap /\ act' = a
+                 /\ IF a.name = "Maintain" /\ pstate = "RUN" /\ ~raised
+                      THEN LET st == Repop(<<Remaining(pool), grs, nextpid, FALSE>>, ExitCodes(pool), 1)
+                           IN grs' = st[2] /\ graised' = st[4] /\ glen' = Len(st[1])
+                      ELSE /\ grs' = IF a.name = "RH_Ack" THEN [grs EXCEPT !.R = 0] ELSE grs
+                           /\ graised' = o.raised /\ glen' = Len(o.pool)
+(* C11, independent of the implementation's counters: every supervision pass admitted exactly the
+   replacements the budget allows and raised exactly when it was exhausted *)
+BudgetEnforced == (act.name = "Maintain" /\ l > 1) => (raised = graised /\ Len(pool) = glen)
 =============================================================================
